@@ -26,13 +26,13 @@ A_m; parcor yields numpoly[m] of the current A_m and steps down with
 A_{m-1} = (A_m - k_m z^-m A_m(1/z)) / (1 - k_m^2).
 
 Exactness: with Fraction coefficients the library's step-down stays in
-Fractions until it meets an intermediate reflection coefficient that is exactly
-zero: Poly.__getitem__ then returns the float ``Poly.zero`` (0.0) and the next
-division by 1 - 0.0**2 turns everything into floats.  From that stage on (and
-for int / float coefficients from the start) the verdict is only judged when it
-is well-posed in floats (poles away from the circle, reflection coefficients
-away from +-1 with a margin far above the float error); otherwise the case is
-counted as unjudged.
+Fractions (an intermediate reflection coefficient that is exactly zero is
+yielded as the float ``Poly.zero``, 0.0, but since fix F34 the stage is skipped
+instead of dividing everything by the float 1 - 0.0**2), so every verdict on
+such a filter is judged, poles on the circle included.  For int / float
+coefficients the verdict is only judged when it is well-posed in floats (poles
+away from the circle, reflection coefficients away from +-1 with a margin far
+above the float error); otherwise the case is counted as unjudged.
 """
 import math
 from fractions import Fraction
@@ -218,17 +218,31 @@ def rand_poles(rng):
       reals.append(rand_real(rng, where, hair=n <= 2))
     else:
       pairs.append(rand_pair(rng, where))
-  hairy = any(abs(abs(p) - 1) < F(1, 10 ** 6) and abs(p) != 1 for p in reals)
-  if rng.random() < 0.12 and not hairy:
-    # (not with poles a hair off the circle: the exact zeros put the library
-    # on its float path, where such a pole is indistinguishable from |k| = 1)
+  if rng.random() < 0.12:
     # mirrored set P u -P: a polynomial in z^-2, every odd reflection
-    # coefficient is exactly zero (the library's float-zero injection path)
+    # coefficient is exactly zero (the float-zero path of Poly.__getitem__;
+    # poles a hair off the circle included: exact coefficients stay exact)
     reals, pairs = reals[:2], pairs[:2 - len(reals[:2])]
     if not reals and not pairs:
       reals = [rand_real(rng, "in")]
     reals = reals + [-p for p in reals if p != 0]
     pairs = pairs + [(-re, im) for re, im in pairs if re != 0]
+    u = rng.random()
+    if u < 0.5:
+      # ... times one more factor, often with a pole on the circle: zero
+      # reflection coefficients in the middle of the step-down, the deciding
+      # one (exactly +-1 for a critical filter) after them
+      extra = rng.choice(["on-real", "on-real", "on-pair", "on-both", "in",
+                          "out"])
+      if extra == "on-real":
+        reals.append(F(rng.choice([-1, 1])))
+      elif extra == "on-pair":
+        pairs.append(rng.choice([(F(3, 5), F(4, 5)), (F(-3, 5), F(4, 5)),
+                                 (F(0), F(1)), (F(5, 13), F(12, 13))]))
+      elif extra == "on-both":
+        reals.extend([F(1), F(-1)])
+      else:
+        reals.append(rand_real(rng, extra))
   if rng.random() < 0.3:
     reals.reverse()
     pairs.reverse()
@@ -391,8 +405,6 @@ def judge_plan(ctype, ks, truth, reals, pairs):
       amp *= max(1.0, 1.0 / margin)
     if abs(k) >= 1:
       break
-    if k == 0:
-      exact = False       # Poly.zero (0.0) enters: floats from here on
   return True
 
 
@@ -488,6 +500,9 @@ def run_stab(ctx, case):
     ctx.count("stab:judged-" + ("monic" if monic else "non-monic"))
     ctx.count("stab:judged-%s-%s" % (ctype, "monic" if monic else "non-monic"))
     ctx.count("stab:judged-truth-" + tclass)
+    if ctype in ("frac", "fraclead") and any(k == 0 for k in upto):
+      ctx.count("stab:judged-exact-with-zero-k")
+      ctx.count("stab:judged-exact-with-zero-k-" + tclass)
     if bool(got) != truth:
       if not monic:
         key = KNOWN_KEY
@@ -571,8 +586,6 @@ def run_stab(ctx, case):
           ctx.violation("parcor/step-down-value", case, stage=len(ks) - j,
                         yielded=yielded, want=ks)
           return True
-        if want == 0:
-          exact = False
         d = float(abs(1 - abs(want)))     # exact first: |want| may round to 1.0
         amp *= max(1.0, 1.0 / d) if d else 1.0
       if ks and abs(ks[-1]) == 1 and exact:
@@ -636,8 +649,6 @@ def run_rt(ctx, case):
       ctx.violation("parcor/step-down-value", case, stage=p - j,
                     yielded=yielded, want=want_seq)
       return True
-    if want == 0:
-      exact = False
     d = float(abs(1 - abs(want)))     # exact first: |want| may round to 1.0
     amp *= max(1.0, 1.0 / d) if d else 1.0
   else:
@@ -781,6 +792,8 @@ def finish(ctx):
     ctx.need("rt:profile-" + prof, 100)
   ctx.need("rt:has-|k|>1", 100)
   ctx.need("rt:has-zero-k", 100)
+  ctx.need("stab:judged-exact-with-zero-k", 40)
+  ctx.need("stab:judged-exact-with-zero-k-critical", 5)
   ctx.need("rt:levinson-compared", 500)
   ctx.need("rt:round-trip-compared", 500)
   ctx.need("rt:levinson-order-argument", 50)
